@@ -274,6 +274,17 @@ impl Rec {
     }
 }
 
+/// FNV-1a over the file bytes (C06: nothing but a commit may change them)
+pub fn file_hash(path: &std::path::Path) -> (String, u64) {
+    let data = std::fs::read(path).unwrap_or_default();
+    let mut h: u64 = 0xcbf29ce484222325;
+    for b in &data {
+        h ^= *b as u64;
+        h = h.wrapping_mul(0x100000001b3);
+    }
+    (format!("{:016x}", h), data.len() as u64)
+}
+
 fn op_json(t: i64, c: &str, p: &[i64], k: i64, v: i64, lk: &str, lo: i64, hk: &str, hi: i64) -> Value {
     json!({"ev":"op","a":"op","t":t,"c":c,"p":p,"k":k,"v":v,"lk":lk,"lo":lo,"hk":hk,"hi":hi})
 }
@@ -299,9 +310,18 @@ struct Driver<'a> {
     commits: i64,
     states: bool,
     max_readers: usize,
+    hashes: bool,
+    p_rollback: u32,
 }
 
 impl<'a> Driver<'a> {
+    fn hash_event(&mut self, at: &str) {
+        if self.hashes {
+            let (h, len) = file_hash(&self.world.path);
+            self.rec.ev(json!({"ev":"filehash","h":h,"len":len,"at":at}));
+        }
+    }
+
     fn state_event(&mut self) {
         if self.states {
             let d = self.world.dump();
@@ -419,8 +439,13 @@ impl<'a> Driver<'a> {
     }
 
     fn end(&mut self, t: i64, commit: bool) -> Value {
+        let is_writer_commit = commit && Some(t) == self.writer;
+        if !is_writer_commit {
+            self.hash_event("before-end");
+        }
         let res = if commit { self.world.commit(t) } else { self.world.drop_tx(t) };
         self.rec.ev(json!({"ev": if commit {"commit"} else {"drop"}, "t": t, "res": res}));
+        self.hash_event(if is_writer_commit { "after-commit" } else { "after-end" });
         if Some(t) == self.writer {
             self.writer = None;
         }
@@ -526,10 +551,14 @@ impl<'a> Driver<'a> {
                 None => {
                     if r < 6 && self.readers.is_empty() {
                         // close + reopen
+                        self.hash_event("before-reopen");
                         self.rec.ev(json!({"ev":"closing"}));
                         let c = self.world.close();
+                        // "Setting num_pages when opening an existing database has no effect"
+                        self.world.opts.num_pages = [4usize, 32, 1000, 5000][self.rng.gen_range(0..4)];
                         let o = if c == json!(["ok"]) { self.world.open() } else { c };
-                        self.rec.ev(json!({"ev":"reopen","res":o}));
+                        self.rec.ev(json!({"ev":"reopen","res":o,"num_pages_option":self.world.opts.num_pages}));
+                        self.hash_event("after-reopen");
                         if o != json!(["ok"]) {
                             return;
                         }
@@ -563,7 +592,7 @@ impl<'a> Driver<'a> {
                     } else if r < 84 && !self.readers.is_empty() {
                         let rt = self.readers[self.rng.gen_range(0..self.readers.len())];
                         self.read_op(rt);
-                    } else if r < 94 {
+                    } else if self.rng.gen_range(0..100) >= (self.p_rollback * 100 / 16).min(90) {
                         let res = self.end(t, true);
                         if res != json!(["ok"]) {
                             return; // the trace ends with the failing commit
@@ -683,7 +712,7 @@ fn trace(a: &Args) -> i32 {
         let mut rng = StdRng::seed_from_u64(seed.wrapping_mul(1_000_003).wrapping_add(h as u64));
         let presized = if a.has("presized") { a.n("presized", 1) != 0 } else { rng.gen_bool(0.6) };
         if !a.has("num-pages") {
-            opts.num_pages = if presized { 16384 } else { 4 };
+            opts.num_pages = if presized { a.n("presized-pages", 16384) as usize } else { 4 };
         }
         if l1 {
             iohook::set_target(&path);
@@ -712,6 +741,8 @@ fn trace(a: &Args) -> i32 {
             commits: 0,
             states: a.n("states", 0) != 0,
             max_readers: a.n("max-readers", 2) as usize,
+            hashes: a.n("hashes", 0) != 0,
+            p_rollback: a.n("p-rollback", 6) as u32,
         };
         d.state_event();
         d.run(len);
